@@ -20,16 +20,26 @@ ops:
   ["drain"]                      run to quiescence
   ["fault", k, victim, how]      death at the k-th next kernel call
   ["sig", signum]                deliver a signal to the daemon
+  ["cfg", edit]                  (config mode) rewrite the ini file:
+                                 {"add": wc} | {"remove": name} |
+                                 {"set": [name, key, value]} |
+                                 {"circus": {key: value}}
+"config": true starts the daemon from an ini file rendered from "watchers"
+and "arbiter" (the reloadconfig command then re-reads that file).
 Every random choice is in the case; a run is a pure function of it.
 """
 import json
+import os
+import shutil
+import tempfile
 
 from vfw.world import SimWorld, quiet_logging
 
 quiet_logging()
 
 HOOK_NAMES = ('before_start', 'after_start', 'before_spawn', 'after_spawn',
-              'before_stop', 'after_stop', 'before_signal', 'after_signal')
+              'before_stop', 'after_stop', 'before_signal', 'after_signal',
+              'before_reap', 'after_reap')
 
 
 class HookRaised(Exception):
@@ -53,12 +63,34 @@ def make_hook(world_ref, wname, hname, outcome, log):
     return hook
 
 
+def render_config(watchers, circus):
+    lines = ["[circus]", "check_delay = -1", "endpoint = tcp://127.0.0.1:1",
+             "pubsub_endpoint = tcp://127.0.0.1:2"]
+    for key in sorted(circus or {}):
+        lines.append("%s = %s" % (key, circus[key]))
+    lines.append("")
+    for wc in watchers:
+        lines.append("[watcher:%s]" % wc["name"])
+        lines.append("cmd = %s" % wc.get("cmd",
+                                         "worker --wid $(circus.wid)"))
+        for key in sorted(wc):
+            if key in ('name', 'cmd', 'hooks'):
+                continue
+            lines.append("%s = %s" % (key, wc[key]))
+        lines.append("")
+    return "\n".join(lines)
+
+
 class History(object):
 
     def __init__(self, case):
         self.case = case
         self.hook_log = []
         self._wref = [None]
+        self.tmp = None
+        if case.get("config"):
+            self._init_config(case)
+            return
         watchers = []
         for wc in case["watchers"]:
             wc = dict(wc)
@@ -82,12 +114,63 @@ class History(object):
         self.op_times = []
         self.started = False
 
+    def _init_config(self, case):
+        self.tmp = tempfile.mkdtemp(prefix='vfw-cfg-')
+        self.cfg_path = os.path.join(self.tmp, 'circus.ini')
+        self.cfg_watchers = [dict((k, v) for k, v in wc.items()
+                                  if k != 'hooks')
+                             for wc in case["watchers"]]
+        self.cfg_circus = dict(case.get("arbiter") or {})
+        self._write_config()
+        try:
+            self.world = SimWorld(config_file=self.cfg_path,
+                                  tape=case.get("tape") or [],
+                                  default_beh=case.get("default_beh"),
+                                  periodic=case.get("periodic"),
+                                  spawn_cost=case.get("spawn_cost", 1e-6),
+                                  mode=case.get("mode", "daemon"))
+        except BaseException:
+            shutil.rmtree(self.tmp, ignore_errors=True)
+            raise
+        self._wref[0] = self.world
+        self.reqs = {}
+        self.op_times = []
+        self.started = False
+
+    def _write_config(self):
+        with open(self.cfg_path, 'w') as f:
+            f.write(render_config(self.cfg_watchers, self.cfg_circus))
+
+    def edit_config(self, edit):
+        if self.tmp is None:
+            return
+        if "add" in edit:
+            wc = dict(edit["add"])
+            if not any(x["name"].lower() == wc["name"].lower()
+                       for x in self.cfg_watchers):
+                self.cfg_watchers.append(wc)
+        elif "remove" in edit:
+            self.cfg_watchers = [x for x in self.cfg_watchers
+                                 if x["name"] != edit["remove"]]
+        elif "set" in edit:
+            name, key, value = edit["set"]
+            for x in self.cfg_watchers:
+                if x["name"] == name:
+                    x[key] = value
+        elif "circus" in edit:
+            self.cfg_circus.update(edit["circus"])
+        self._write_config()
+
     def start(self):
         self.world.start(drain=True)
         self.started = True
 
     def close(self):
-        self.world.close()
+        try:
+            self.world.close()
+        finally:
+            if self.tmp is not None:
+                shutil.rmtree(self.tmp, ignore_errors=True)
 
     # ------------------------------------------------------------------
     def apply(self, i, op):
@@ -117,6 +200,8 @@ class History(object):
             w.kernel.arm_fault(op[1], op[2], op[3])
         elif kind == 'sig':
             w.deliver_signal(op[1])
+        elif kind == 'cfg':
+            self.edit_config(op[1])
         else:
             raise ValueError("unknown op %r" % (op,))
 
@@ -242,7 +327,7 @@ def lifecycle_cases(requests=('incr', 'decr', 'set', 'restart', 'reload',
                     children=0, max_ops=30, statuses_full=False,
                     extra_watcher_opts=None, kill_cmd=False, signal_cmd=False,
                     respawn_false=False, rm=False, quit=False,
-                    set_other=False):
+                    set_other=False, config=False):
     """General history generator shared by several properties."""
     from hypothesis import strategies as st
 
@@ -261,6 +346,7 @@ def lifecycle_cases(requests=('incr', 'decr', 'set', 'restart', 'reload',
     @st.composite
     def case(draw):
         nw = draw(st.integers(1, max_watchers))
+        use_config = config and draw(st.integers(0, 2)) == 0
         watchers = []
         gts = []
         for i in range(nw):
@@ -272,6 +358,9 @@ def lifecycle_cases(requests=('incr', 'decr', 'set', 'restart', 'reload',
             wc = {"name": "w%d" % i, "numprocesses": np_,
                   "graceful_timeout": gt,
                   "warmup_delay": draw(st.sampled_from([0, 0, 0.05, 0.3]))}
+            if use_config:
+                # the ini format takes whole seconds here
+                wc["warmup_delay"] = draw(st.sampled_from([0, 0, 0, 1]))
             if singleton:
                 wc["singleton"] = True
             if draw(st.integers(0, 5)) == 0:
@@ -357,12 +446,43 @@ def lifecycle_cases(requests=('incr', 'decr', 'set', 'restart', 'reload',
                 {"name": name}, optional={"nostop": st.booleans()}))))
         if quit:
             pool.append(req('quit', ww(st.just({}))))
+        if use_config:
+            newname = st.sampled_from(["w%d" % nw, "w%d" % (nw + 1)])
+            anyname = st.sampled_from(names + ["w%d" % nw])
+            new_wc = st.fixed_dictionaries({
+                "name": newname, "numprocesses": st.integers(0, 3),
+                "graceful_timeout": st.sampled_from([0.1, 0.3, 1.0]),
+                "warmup_delay": st.sampled_from([0, 0, 1])},
+                optional={"priority": st.integers(0, 2)})
+            edits = st.one_of(
+                new_wc.map(lambda wc: {"add": wc}),
+                new_wc.map(lambda wc: {"add": wc}),
+                anyname.map(lambda n: {"remove": n}),
+                st.tuples(anyname, st.just("numprocesses"),
+                          st.integers(0, 3)).map(
+                              lambda t: {"set": list(t)}),
+                st.tuples(anyname, st.sampled_from(
+                    [("graceful_timeout", 0.2), ("priority", 1),
+                     ("cmd", "other --wid $(circus.wid)"),
+                     ("send_hup", True), ("respawn", False)])).map(
+                         lambda t: {"set": [t[0], t[1][0], t[1][1]]}),
+                st.sampled_from([{"circus": {"httpd_port": 8081}},
+                                 {"circus": {"warmup_delay": 1}}]))
+            cfg_op = st.tuples(st.just("cfg"), edits).map(list)
+            rl = req('reloadconfig', ww(st.just({})))
+            pool += [cfg_op, cfg_op, rl, rl]
         reqs = st.one_of(*pool)
         ops = draw(st.lists(st.one_of(reqs, reqs, pacing_ops(),
                                       pacing_ops(), deaths, deaths),
                             min_size=1, max_size=max_ops))
         c = {"watchers": watchers, "tape": tape, "ops": ops}
-        if draw(st.integers(0, 3)) == 0:
+        if use_config:
+            c["config"] = True
+            for wc in watchers:
+                wc.pop("hooks", None)
+            if draw(st.integers(0, 3)) == 0:
+                c["arbiter"] = {"warmup_delay": 1}
+        elif draw(st.integers(0, 3)) == 0:
             c["arbiter"] = {"warmup_delay": draw(st.sampled_from(
                 [0.05, 0.2]))}
         return c
